@@ -330,6 +330,18 @@ func TestEngineGeth(t *testing.T) {
 			case k < 85:
 				tt := hx.Pick(r, []common.Address{ben0, ben1, eoas[0], addrs[0]})
 				to, value, kind = &tt, big.NewInt(int64(r.Intn(50))), "transfer"
+			case k < 88:
+				// a creation whose init code returns normally but whose result is refused at deposit: code starting with
+				// 0xEF (EIP-3541), code above the 24576-byte limit (EIP-170) — failures that are not reverts and still
+				// carry return data — or an init code that reverts with data
+				switch r.Intn(3) {
+				case 0:
+					data, kind = initCode(append([]byte{0xEF}, make([]byte, r.Intn(4))...)), "create-tx[0xEF code]"
+				case 1:
+					data, kind = initCode(make([]byte, 24577+r.Intn(3))), "create-tx[oversize code]"
+				default:
+					data, kind = asm("PUSH1", 0x2a, "PUSH1", 0, "MSTORE", "PUSH1", 32, "PUSH1", 0, "REVERT"), "create-tx[reverting init]"
+				}
 			default:
 				pg := genProgram(r, 9, targets, 1)
 				data, kind = initCode(pg.code), "create-tx["+pg.desc+"]"
